@@ -38,6 +38,8 @@ FLAVOURS = {
     'san': (CXX, ['-O1', '-g', '-fsanitize=address,undefined', '-fno-sanitize-recover=all',
                   '-fno-omit-frame-pointer']),
     'ubreport': (CXX, ['-O1', '-g', '-fsanitize=undefined', '-fno-omit-frame-pointer']),
+    # ASan aborts, UBSan reports every distinct site and continues (sites are collected from stderr)
+    'sanrec': (CXX, ['-O1', '-g', '-fsanitize=address,undefined', '-fno-omit-frame-pointer']),
 }
 BASE_FLAGS = ['-std=gnu++11', '-DUNIX_HOST_DUINO', '-DSEANDST_ACETIME_VERIF=1', '-w',
               '-I', os.path.join(VERIF, 'cxx/shim'), '-I', os.path.join(VERIF, 'cxx/common')]
@@ -171,6 +173,7 @@ class ShardResult:
         self.samples = []
         self.crashes = []      # dicts
         self.stderr_tail = []
+        self.stderr_all = []
 
     def merge_record(self, r):
         t = r.get('type')
@@ -214,6 +217,7 @@ def run_shards(exe, args, nshards=None, timeout=3600, env=None, san=False, tier=
         outs = list(ex.map(one, range(nshards)))
     for i, rc, out, err, timed_out in outs:
         done = False
+        res.stderr_all.append(err)
         for line in out.splitlines():
             line = line.strip()
             if not line.startswith('{'):
@@ -358,3 +362,40 @@ def classify_crash(c):
     if m:
         fn = m.group(1)
     return ':'.join(x for x in [kind, fn or site or c.get('tag', '')] if x)
+
+
+def ub_sites(stderr_texts):
+    """Parse UBSan recover-mode reports: -> {key: {'message':..., 'site':..., 'count': n}}; key = ubsan:<kind>:<first ace_time frame>."""
+    import re
+    out = {}
+    for text in stderr_texts:
+        lines = text.splitlines()
+        for i, l in enumerate(lines):
+            m = re.match(r'(\S+?):(\d+):(\d+): runtime error: (.*)$', l)
+            if not m:
+                continue
+            fil, line, col, msg = m.groups()
+            kind = re.split(r'[:,]| of | for | in | by |\d', msg)[0].strip().replace(' ', '-')
+            if msg.startswith('signed integer overflow'): kind = 'signed-integer-overflow'
+            elif msg.startswith('index'): kind = 'index-out-of-bounds'
+            elif msg.startswith('negation'): kind = 'negation-overflow'
+            elif msg.startswith('left shift') or msg.startswith('shift'): kind = 'shift'
+            elif 'null pointer' in msg: kind = 'null-pointer'
+            elif msg.startswith('load of value'): kind = 'invalid-load'
+            elif msg.startswith('division by zero'): kind = 'division-by-zero'
+            fn = None
+            for j in range(i + 1, min(i + 12, len(lines))):
+                fm = re.match(r'\s+#\d+ 0x[0-9a-f]+ in (.+?) (/\S+):(\d+)', lines[j])
+                if not fm:
+                    if re.match(r'\S+?:\d+:\d+: runtime error', lines[j]):
+                        break
+                    continue
+                f = fm.group(1)
+                if 'ace_time' in f:
+                    fn = re.sub(r'\(.*$', '', f)
+                    break
+            site = os.path.basename(fil) + ':' + line
+            key = 'ubsan:%s:%s' % (kind, fn or site)
+            e = out.setdefault(key, {'message': msg, 'site': site, 'count': 0})
+            e['count'] += 1
+    return out
